@@ -46,6 +46,7 @@ type asSite struct {
 	holds     bool
 	ext, int_ bool
 	shape     string
+	mutex     string // "recv.newAddrMtx" when the mutex is the field of the method's own receiver
 }
 
 const asMutexField = "newAddrMtx"
@@ -89,7 +90,34 @@ func asIsMutexOp(e ast.Expr, op string) bool {
 		return false
 	}
 	m, ok := s.X.(*ast.SelectorExpr)
-	return ok && m.Sel.Name == asMutexField
+	if !ok || m.Sel.Name != asMutexField {
+		return false
+	}
+	base := "?"
+	if id, ok := m.X.(*ast.Ident); ok {
+		base = id.Name
+	}
+	asMutexBases[base] = true
+	return true
+}
+
+// base identifiers of the `<base>.newAddrMtx` operations seen while classifying the current site
+var asMutexBases = map[string]bool{}
+
+// asOtherLock: `<x>.<field>.Lock()` on some other field — reported in the shape for diagnosis only.
+func asOtherLock(e ast.Expr) string {
+	c, ok := e.(*ast.CallExpr)
+	if !ok {
+		return ""
+	}
+	s, ok := c.Fun.(*ast.SelectorExpr)
+	if !ok || (s.Sel.Name != "Lock" && s.Sel.Name != "RLock") {
+		return ""
+	}
+	if m, ok := s.X.(*ast.SelectorExpr); ok && m.Sel.Name != asMutexField {
+		return m.Sel.Name
+	}
+	return ""
 }
 
 // isTxCall: walletdb.Update(db, f) / walletdb.Batch(db, f) / x.Update(f, reset) / x.Batch(f); returns the closure arg.
@@ -235,8 +263,59 @@ func extractAddrSites(repo, out string) error {
 	for _, k := range keys {
 		f := funcs[k]
 		if (f.ext || f.int_) && !isSite[f.key] && ast.IsExported(f.name) && asDirect(f, byName) {
-			sites = append(sites, asSite{f.name, false, f.ext, f.int_, "unrecognised:exported-helper-without-transaction"})
+			sites = append(sites, asSite{f.name, false, f.ext, f.int_, "unrecognised:exported-helper-without-transaction", ""})
 		}
+	}
+	// the rest of the repository must not call Next*Addresses at all (outside waddrmgr itself and package wallet):
+	// such a caller would bypass every site above.
+	err = filepath.WalkDir(repo, func(path string, d os.DirEntry, err error) error {
+		if err != nil {
+			return nil
+		}
+		if d.IsDir() {
+			rel, _ := filepath.Rel(repo, path)
+			if rel == "wallet" || rel == "waddrmgr" || strings.HasPrefix(d.Name(), ".") || d.Name() == "vendor" || d.Name() == "testdata" {
+				if rel == "wallet" {
+					// sub-packages of wallet (txauthor, txrules, ...) are scanned; the package directory itself was analysed above
+					return nil
+				}
+				return filepath.SkipDir
+			}
+			return nil
+		}
+		if !strings.HasSuffix(path, ".go") || strings.HasSuffix(path, "_test.go") || filepath.Dir(path) == dir {
+			return nil
+		}
+		f, perr := parser.ParseFile(token.NewFileSet(), path, nil, parser.SkipObjectResolution)
+		if perr != nil {
+			return nil // not part of the build we analyse
+		}
+		for _, decl := range f.Decls {
+			fd, ok := decl.(*ast.FuncDecl)
+			if !ok || fd.Body == nil {
+				continue
+			}
+			var ext, in bool
+			ast.Inspect(fd.Body, func(n ast.Node) bool {
+				if c, ok := n.(*ast.CallExpr); ok {
+					switch _, nm := asCallee(c); nm {
+					case "NextExternalAddresses":
+						ext = true
+					case "NextInternalAddresses":
+						in = true
+					}
+				}
+				return true
+			})
+			if ext || in {
+				rel, _ := filepath.Rel(repo, path)
+				sites = append(sites, asSite{rel + ":" + fd.Name.Name, false, ext, in, "unrecognised:caller-outside-package-wallet", ""})
+			}
+		}
+		return nil
+	})
+	if err != nil {
+		return err
 	}
 	sort.Slice(sites, func(i, j int) bool { return sites[i].name < sites[j].name })
 	if len(sites) == 0 {
@@ -252,8 +331,8 @@ func extractAddrSites(repo, out string) error {
 		if i == len(sites)-1 {
 			sep = ""
 		}
-		fmt.Fprintf(&b, "  { name := %q, holdsMutex := %v, ext := %v, int := %v, shape := %q }%s\n",
-			s.name, s.holds, s.ext, s.int_, s.shape, sep)
+		fmt.Fprintf(&b, "  { name := %q, holdsMutex := %v, mutex := %q, ext := %v, int := %v, shape := %q }%s\n",
+			s.name, s.holds, s.mutex, s.ext, s.int_, s.shape, sep)
 	}
 	b.WriteString("]\n\nend AddrSitesGen\n")
 	if err := os.MkdirAll(filepath.Dir(out), 0o755); err != nil {
@@ -348,7 +427,19 @@ func asAnalyse(f *asFunc, reach func(ast.Node) (bool, bool), byName map[string][
 		case hasGoto:
 			s.shape = "unrecognised:goto-or-label"
 		default:
+			asMutexBases = map[string]bool{}
 			s.holds, s.shape = asClassify(append([]ast.Node{}, stack...), c)
+			recv := ""
+			if f.decl.Recv != nil && len(f.decl.Recv.List) > 0 && len(f.decl.Recv.List[0].Names) > 0 {
+				recv = f.decl.Recv.List[0].Names[0].Name
+			}
+			if s.holds {
+				if len(asMutexBases) == 1 && recv != "" && asMutexBases[recv] {
+					s.mutex = "recv." + asMutexField
+				} else {
+					s.holds, s.shape = false, "unrecognised:mutex-of-another-object"
+				}
+			}
 		}
 		res = append(res, s)
 		return true
@@ -446,6 +537,24 @@ func asClassify(path []ast.Node, call *ast.CallExpr) (bool, string) {
 		}
 	}
 	if !anyMutex {
+		other := ""
+		for i, n := range path {
+			if b, ok := n.(*ast.BlockStmt); ok && i+1 < len(path) {
+				for _, st := range b.List {
+					if st == path[i+1] {
+						break
+					}
+					if es, ok := st.(*ast.ExprStmt); ok {
+						if o := asOtherLock(es.X); o != "" {
+							other = o
+						}
+					}
+				}
+			}
+		}
+		if other != "" {
+			return false, "none(other-lock:" + other + ")"
+		}
 		return false, "none"
 	}
 	// evaluate the sequence of mutex statements before the call
